@@ -12,7 +12,7 @@ from .. import oracle as O, gen as G
 from ..contract import contract, same_meta, same_start, bits_equal
 
 ASSUMPTIONS = [
-    "reference = longdouble DFT matrix; comparison in the frequency domain (fftshift order) so that the single boundary bin can be left "
+    "reference = longdouble DFT matrix (numpy.fft complex128 for N > 128); comparison in the frequency domain (fftshift order) so that the single boundary bin can be left "
     "unconstrained when the requested shift, after the float conversions of the Quantity, is within 1e-9 of a whole bin",
     "tolerance per bin: N * tol_sample with tol_sample = 2e-6*(1+log2 N)*max|x| for complex64 data (the mixing phasor is cast to the data "
     "dtype) and 1e-11*(1+log2 N)*max|x| for complex128",
@@ -29,7 +29,9 @@ def fs_case(draw, nmax=64):
         spec["data"]["k"] = draw(st.sampled_from([-(N // 2), (N - 1) // 2, 0, -(N // 2) + 1 if N > 2 else 0]))
     aval = st.one_of(st.integers(-4, 4).map(F), st.integers(-N - 2, N + 2).map(F),
                      st.tuples(st.integers(-N - 1, N), st.integers(1, 1023)).map(lambda t: F(t[0]) + F(t[1], 1024)),
-                     st.tuples(st.integers(-2, 1), st.integers(1, 1023)).map(lambda t: F(t[0]) + F(t[1], 1024)))
+                     st.tuples(st.integers(-2, 1), st.integers(1, 1023)).map(lambda t: F(t[0]) + F(t[1], 1024)),
+                     # a tiny fraction of a bin is still a shift: one bin wraps
+                     st.sampled_from([F(1, 10**9), -F(1, 10**9), F(1, 2**30), -F(1, 10**7), F(1, 10**12)]))
     form = draw(st.sampled_from(["scalar", "scalar", "arr", "arr", "arr1"]))
     if form == "scalar":
         shp = []
@@ -73,15 +75,22 @@ def run_fs(case, stt):
     scale = float(np.max(np.abs(x)))
     tol_s = (2e-6 if x.dtype == np.complex64 else 1e-11) * (1 + math.log2(max(N, 2))) * scale
     n_idx = np.arange(N)
-    X = np.fft.fftshift(np.asarray(O.dft(x, axis=0)), axes=0)
-    Yout = np.fft.fftshift(np.asarray(O.dft(out, axis=0)), axes=0)
+    big = N > 128  # large-N sub-check: numpy.fft in complex128 as the reference transform
+    fwd = (lambda v: np.fft.fft(np.asarray(v).astype(np.complex128), axis=0)) if big else (lambda v: np.asarray(O.dft(v, axis=0)))
+    X = np.fft.fftshift(fwd(x), axes=0)
+    Yout = np.fft.fftshift(fwd(out), axes=0)
     any_wrap = False
     for ix in np.ndindex(ss):
         a = a_b[ix]
         col = x[(slice(None),) + ix]
-        cyc = np.array([float((a * int(n) / N) % 1) for n in n_idx], dtype=O.LD)
-        mixed = col.astype(O.CLD) * O.cis_cycles_ld(cyc)
-        Yref = np.fft.fftshift(np.asarray(O.dft(mixed)))
+        if big:
+            an, ad = a.numerator, a.denominator * N
+            cyc = np.array([((an * int(n)) % ad) / ad for n in n_idx], dtype=np.float64)
+            mixed = col.astype(np.complex128) * np.exp(2j * np.pi * cyc)
+        else:
+            cyc = np.array([float((a * int(n) / N) % 1) for n in n_idx], dtype=O.LD)
+            mixed = col.astype(O.CLD) * O.cis_cycles_ld(cyc)
+        Yref = np.fft.fftshift(fwd(mixed))
         d = F(1, 10**9) * max(1, abs(a))
         aa = abs(a)
         lo = min(N, math.ceil(aa - d)) if aa - d > 0 else 0
@@ -124,6 +133,26 @@ def run_fs(case, stt):
     stt.label("dtype_" + spec["dtype"])
     stt.label("data_" + spec["data"]["kind"])
     stt.label("beyond_band" if any(abs(a) >= N for a in a_exact) else "in_band")
+
+
+@st.composite
+def big_case(draw):
+    n = draw(st.sampled_from([1000, 1024, 2048, 3001, 4096, 6075, 8192]))
+    spec = draw(G.signal_spec(classes=["BasebandSignal"], nmin=n, nmax=n, nchan_max=2, max_trailing=0, sr=G.freq_q(0, 9), data_kinds=("noise",)))
+    spec["n"] = n
+    base = draw(st.integers(-n + 1, n - 1))
+    frac = draw(st.sampled_from([F(0), F(1, 50), F(1, 2), F(1, 1000), F(1, 4), F(1, 1024), -F(1, 50)]))
+    a = F(base) + frac
+    un = draw(st.sampled_from(["Hz", "kHz", "MHz"]))
+    rate = O.fq(spec["sr"])
+    return {"sig": spec, "shape": [], "vals": [float(a * rate / n / O.FREQ_UNITS[un])], "unit": un}
+
+
+def run_big(case, stt):
+    run_fs(case, stt)
+    N = case["sig"]["n"]
+    a = abs(F(case["vals"][0]) * O.FREQ_UNITS[case["unit"]] * N / O.fq(case["sig"]["sr"]))
+    stt.nt(a >= 500 and a.denominator != 1)
 
 
 # -- histories: the same call repeated with exactly one ingredient changed (hidden state / caches) ---------
@@ -193,6 +222,9 @@ SUBS = [
         "baseband classes, N 1..64, c8/c16, channel/pol/trailing shapes, shift scalar/(1,)/lower-rank/length-1-axes/full in Hz/kHz/MHz/1/s, "
         "whole/fractional bins, either sign, beyond the band; non-trivial = more than one sample element, a shift of lower rank than the "
         "sample shape (scalar included) and at least one wrapped bin", quick=4000, thorough=80000, pieces_quick=6),
+    Sub("large_N", big_case(), run_big,
+        "N in {1000..8192}, shifts of hundreds to thousands of bins with small fractional parts, numpy.fft complex128 reference; non-trivial = "
+        "|shift| >= 500 bins with a non-zero fractional part", quick=160, thorough=3000, pieces_quick=4),
     Sub("call_history", hist_case(), run_hist,
         "the same freq_shift call repeated 2..5 times in one process with exactly one ingredient changed per step (sample rate with the "
         "same shift in Hz, data, shift value, unit spelling, centre frequency), each result checked against the DFT oracle; non-trivial = "
